@@ -164,9 +164,30 @@ class Wire:
             while self.q[other]:
                 self.meta[other].popleft()
                 self._deliver_bytes(other, self.q[other].popleft())
-        if not self.tr[peer].closed:
-            self.tr[peer].closed = True
-            self._lose(peer, None)
+        self.stream_end(peer)
+
+    def stream_end(self, side):
+        """The byte stream towards `side` ends (the peer's FIN arrives).  As asyncio's socket transports
+        do, the protocol is first told eof_received(); unless it asks to keep the transport open the
+        transport is then closed and connection_lost(None) follows."""
+        t = self.tr[side]
+        if t.closed or self.lost[side]:
+            return
+        keep = False
+        eof = getattr(self.proto[side], 'eof_received', None)
+        if eof is not None:
+            try:
+                keep = eof()
+            except Exception as exc:        # asyncio: _fatal_error -> connection_lost(exc)
+                if not t.closed:
+                    t.closed = True
+                self._lose(side, exc)
+                return
+        if keep:
+            return
+        if not t.closed:
+            t.closed = True
+            self.loop.call_soon(self._lose, side, None)
 
     def _lose(self, side, exc):
         if not self.lost[side]:
@@ -182,8 +203,11 @@ class Wire:
         self.meta['s'].clear()
         for side in ('c', 's'):
             if not self.tr[side].closed:
-                self.tr[side].closed = True
-                self.loop.call_soon(self._lose, side, exc)
+                if exc is None:
+                    self.loop.call_soon(self.stream_end, side)      # the stream just ends (FIN)
+                else:
+                    self.tr[side].closed = True
+                    self.loop.call_soon(self._lose, side, exc)      # reset: connection_lost(exc)
 
 
 class _Acceptor:
